@@ -257,7 +257,11 @@ def case_marray(rec, case):
         one = d.to_fourier if direction == 'to_fourier' else d.to_real
         M = sym_marray(rank, L, src, salt=case.get('salt', 0))
         orig = M.data.copy()
-        ret = fn(M)
+        try:
+            ret = fn(M)
+        except Exception as e:
+            probs.append(('marray', 'MatrixArray_%s raised %s on a %s array of rank %d: %s' % (direction, type(e).__name__, src.name, rank, str(e)[:80])))
+            continue
         rec.trans()
         if M.space != dst_:
             probs.append(('marray', 'MatrixArray_%s did not flip the space flag (rank %d)' % (direction, rank)))
@@ -282,7 +286,11 @@ def case_marray(rec, case):
             probs.append(('marray', 'MatrixArray_%s modified the operand although it refused' % direction))
         # round trip through the MatrixArray interface
         back = d.MatrixArray_to_real if direction == 'to_fourier' else d.MatrixArray_to_fourier
-        back(M)
+        try:
+            back(M)
+        except Exception as e:
+            probs.append(('marray', 'transforming back after MatrixArray_%s raised %s (rank %d): %s' % (direction, type(e).__name__, rank, str(e)[:80])))
+            continue
         sc = float(np.max(np.abs(orig)))
         if float(np.max(np.abs(M.data - orig))) > RT_TOL * sc or M.space != src:
             probs.append(('marray', 'MatrixArray round trip starting with %s is not the identity (rank %d)' % (direction, rank)))
